@@ -235,6 +235,11 @@ func VerifHarness_RelStep(lo, hi, fork uint64) {
 		target := &wordsA[len(wordsA)-2]
 		verifAssume((target[2]>>24)&0xff != 0)
 	}
+	if op == CREATE || op == CREATE2 {
+		// init code of at most 8 bytes (its hash is an uninterpreted function of length and content)
+		size := &wordsA[len(wordsA)-3]
+		verifAssume(size.IsUint64() && size.Uint64() <= 8)
+	}
 	wordsG := make([]uint256.Int, len(wordsA), 20)
 	copy(wordsG, wordsA)
 	mw := verifU64("memwords")
@@ -286,6 +291,25 @@ func VerifHarness_RelStep(lo, hi, fork uint64) {
 		BlockNumber: number, Time: timestamp, Difficulty: difficulty, BaseFee: baseFee, Random: &rnd},
 		TxContext{Origin: origin, GasPrice: gasPrice}, dbA, cfg, cfgA)
 	evmA.IsExecuteJP = jp
+	// the frame is "in the middle": an earlier call may have left return data behind
+	rdLen := verifU64("returndata.len")
+	verifAssume(rdLen <= 4)
+	rdata := verifBytes("returndata", rdLen, 4)
+	firstA, firstG := true, true
+	verifReturnDataHook = func() []byte {
+		if firstA {
+			firstA = false
+			return verifCloneBytes(rdata)
+		}
+		return nil
+	}
+	ethvm.VerifReturnDataHook = func() []byte {
+		if firstG {
+			firstG = false
+			return verifCloneBytes(rdata)
+		}
+		return nil
+	}
 	verifStackHook = func() *Stack { return &Stack{data: wordsA} }
 	verifMemoryHook = func() *Memory { return &Memory{store: memA, lastGasCost: verifMemCost(mw * 32)} }
 	contractA := NewContract(AccountRef(callerAddr), AccountRef(self), callValue, gas)
@@ -305,7 +329,22 @@ func VerifHarness_RelStep(lo, hi, fork uint64) {
 		in.evm.StateDB.SetState(c.Address(), common.Hash{9}, common.Hash{9})
 		return d.ret, verifErrKind(d.kind)
 	}
+	cutFrames := verifParam("cutframes") == 1
+	if cutFrames {
+		// only the opcode handler's glue is compared: the frame routine answers arbitrarily (same on both sides)
+		verifFrameHook = func(kind OpCode, caller ContractRef, addr common.Address, in []byte, g uint64, value *big.Int) ([]byte, common.Address, uint64, error) {
+			d := draw(nA, g)
+			nA++
+			left := d.used
+			if left > g {
+				left = g
+			}
+			dbA.SetState(addr, common.Hash{8}, common.BytesToHash(in))
+			return d.ret, common.BytesToAddress(d.ret), left, verifErrKind(d.kind)
+		}
+	}
 	retA, errA := evmA.Interpreter().Run(verifCtx, contractA, input, readOnly)
+	verifFrameHook = nil
 
 	// ---------------- go-ethereum v1.12.0
 	dbG := newVerifStateDB()
@@ -350,7 +389,27 @@ func VerifHarness_RelStep(lo, hi, fork uint64) {
 		}
 		return d.ret, e
 	}
+	if cutFrames {
+		ethvm.VerifFrameHook = func(kind ethvm.OpCode, caller ethvm.ContractRef, addr common.Address, in []byte, g uint64, value *big.Int) ([]byte, common.Address, uint64, error) {
+			d := draw(nG, g)
+			nG++
+			left := d.used
+			if left > g {
+				left = g
+			}
+			dbG.SetState(addr, common.Hash{8}, common.BytesToHash(in))
+			var e error
+			switch d.kind {
+			case 1:
+				e = ethvm.ErrExecutionReverted
+			case 2:
+				e = ethvm.ErrOutOfGas
+			}
+			return d.ret, common.BytesToAddress(d.ret), left, e
+		}
+	}
 	retG, errG := evmG.Interpreter().Run(contractG, input, readOnly)
+	ethvm.VerifFrameHook = nil
 	verifReach("both-ran")
 
 	verifAssert(verifSameErr(errA, errG), "C01: same success or failure class")
@@ -358,6 +417,7 @@ func VerifHarness_RelStep(lo, hi, fork uint64) {
 	verifAssert(contractA.Gas == contractG.Gas, "C02: same gas left after the instruction")
 	verifAssert(nA == nG, "C01: same number of nested frames")
 	verifCompareWorlds(dbA, dbG, "C01")
+	verifCompareWorlds(dbA, dbG, "C02") // refund-counter changes are world events
 	if debug {
 		// the per-instruction callbacks expose stack, memory, gas and cost before every instruction
 		// (the one after the instruction under test shows its effect): the same facts serve three properties
